@@ -133,6 +133,16 @@ def check(ctx):
         sc = [r for r in returns(f_) if isinstance(r.value, ast.Call) and call_name(r.value) in ("max", "min")]
         ok = len(sc) == 1 and unparse(sc[0].value) == want
         ctx.ob("ALG.scan-monoid.scalar", f_, f"{fn}: scalar carries are combined with {want}", ok, "" if ok else f"uses {unparse(sc[0].value) if sc else None}: Series.{fn[:6]}() is wrong from the third partition on")
+    # ---------------- map_overlap: an EMPTY neighbour contributes no overlap (None), never a length of 0
+    cp_ = ctx.model.module("dask/dataframe/dask_expr/_expr.py").func("_combined_parts")
+    lens = [n for n in ast.walk(cp_) if isinstance(n, ast.IfExp) and isinstance(n.body, ast.Call) and call_name(n.body) == "len"]
+    ok = len(lens) == 2 and all(eqv(n.test, f"{unparse(n.body.args[0])} is not None and len({unparse(n.body.args[0])}) > 0") and eqv(n.orelse, "None") for n in lens) and {unparse(n.body.args[0]) for n in lens} == {"prev_part", "next_part"}
+    ctx.ob("ALG.overlap.empty-neighbour", cp_, "_combined_parts reports len(part) only if the part exists AND is non-empty, else None", ok, "" if ok else "a length of 0 becomes the slice bound out.iloc[before:-0], which is empty: every row of the partition disappears from the map_overlap result")
+    # ---------------- cumulative carry: an absent carry on the LEFT is replaced by the right operand
+    caa = ctx.model.module("dask/dataframe/methods.py").func("_cum_aggregate_apply")
+    ifs = [n for n in walk_no_nested(caa) if isinstance(n, ast.If)]
+    ok = len(ifs) == 1 and eqv(ifs[0].test, "y is None") and all(eqv(r.value, "x") for r in returns(ifs[0]) if r in ifs[0].body) and any(eqv(r.value, "aggregate(x, y)") for r in returns(caa))
+    ctx.ob("ALG.scan-carry.apply", caa, "_cum_aggregate_apply(aggregate, x, y): x if y is None else aggregate(x, y) (the aggregate itself handles a missing x)", ok, "" if ok else "returning x when x is None keeps the carry None for ever after leading all-NaN/empty partitions: cumsum/cumprod restart at every later partition")
 
 
 VARIANTS = [
